@@ -10,7 +10,8 @@ FUNCTIONS = ['uxarray.core.aggregation._apply_node_to_edge_aggregation_numpy@dim
     'uxarray.core.aggregation._node_to_face_aggregation@dims=n_face',
     'uxarray.core.aggregation._node_to_edge_aggregation@dims=n_node',
     'uxarray.core.aggregation._node_to_edge_aggregation@dims=time,n_node',
-    'uxarray.core.aggregation._node_to_edge_aggregation@dims=n_face']
+    'uxarray.core.aggregation._node_to_edge_aggregation@dims=n_face',
+    'uxarray.grid.connectivity.get_face_node_partitions@frame']
 STANDINS = ["aggregations"]
 ASSUMPTIONS = []
 EXPLANATION = "partition / gather contracts + bounded stand-in over all ten reductions"
